@@ -1,6 +1,8 @@
 (* C09 (request-port part): sx entry.  Input (case impl_obs) with
-   case = (datagram (handler ...) sendable fault), handler = (0 b) constant | (1 prefix) | (2 exact name),
-          sendable = 0 when sendto() to the requester fails with OSError (source port 0),
+   case = (datagram (handler ...) source fault), handler = (0 b) constant | (1 prefix) | (2 exact name),
+          source = 1 ordinary requester | 0 UDP source port 0 | 2 a requester sendto() cannot reach (OSError
+          for a reason outside the datagram); port 0 (sendto() to it would fail with EINVAL; the
+          current code drops such datagrams: defect D22, repaired by 7078de3),
           fault = () none | (station index class): station 0 log statement / socket_address_to_str,
           1 prepare_context of handler [index], 2 can_handle of handler [index], 3 handle lookup,
           4 Thread.start; class 0 RuntimeError 1 MemoryError 2 KeyError 3 custom 4 OSError 5 ValueError;
@@ -8,7 +10,7 @@
           transfer started | (4) exception logged | (99 raw) anything else that was sent |
           (7) the liveness probe that followed was not answered.
    Output (model_obs failed_on_model failed_on_impl () covered): covered = 1 iff the case is one for which
-   C09_port_covered_cases says that the checker accepts the model. *)
+   C09_port_covered_cases says that the checker accepts the model (now: every case). *)
 From Coq Require Import String.
 From Coq Require Import List NArith ZArith Bool.
 From VF Require Import Base.Sx Tftp.Codec Tftp.Run Tftp.RequestPort.
@@ -67,15 +69,18 @@ Definition de_fault (x : sx) : option fault :=
 
 Definition port_entry (x : sx) : sx :=
   match x with
-  | L [L [B d; hs; sb; fx]; ix] =>
-      match asListOf de_handler hs, asBool sb, de_fault fx, asListOf de_action ix with
-      | Some hs, Some sendable, Some f, Some io =>
+  | L [L [B d; hs; I src; fx]; ix] =>
+      match asListOf de_handler hs, (if (0 <=? src)%Z && (src <=? 2)%Z then Some src else None), de_fault fx,
+            asListOf de_action ix with
+      | Some hs, Some src, Some f, Some io =>
           (* one iteration of the serve loop: recvfrom truncates the datagram to 512 bytes *)
           let d' := firstn MAX_REQUEST_PACKET_SIZE d in
-          let m := match run_loop_f catch_all hs [(f, sendable, d)] with [m] => m | _ => [] end in
-          L [L (map sx_action m); L (map sxS (port_holds_f f sendable hs d' m));
-             L (map sxS (port_holds_f f sendable hs d' io)); L [];
-             I (if port_validb f sendable hs d' then 1 else 0)%Z]
+          let port0 := (src =? 0)%Z in
+          let sendable := (src =? 1)%Z in
+          let m := match run_loop_v pcurrent catch_all hs [(f, (port0, sendable), d)] with [m] => m | _ => [] end in
+          (* covered = 1: C09_port_covered_cases holds for every case *)
+          L [L (map sx_action m); L (map sxS (port_check f port0 sendable hs d' m));
+             L (map sxS (port_check f port0 sendable hs d' io)); L []; I 1%Z]
       | None, _, _, _ => sxS "bad-case"
       | _, None, _, _ => sxS "bad-case"
       | _, _, None, _ => sxS "bad-case"
